@@ -100,3 +100,89 @@ Definition prop_C14 (tsep : str) (t : tree) (c : hcall) (o : hobs) : bool :=
       | _ => true
       end
   end.
+
+(* =============================================================================================
+   General form: start node = the node at position st of t (a root when st = []); BinaryNode trees
+   (bin = true; an empty child slot is the placeholder HOLE, every real node has two slots).
+
+   Reading of the property for an inner start node: "the tree" is the subtree of the start node.
+   Paths are matched against the nodes of that subtree by their (absolute) path_name; the returned
+   tree must consist of the start node's subtree restricted to the kept nodes; depths — for the
+   depth limit and in the result — are counted from the start node (as get_subtree and print_tree
+   do).  The returned node of get_subtree must be a root (`top = 1`); for prune_tree the predicate
+   does not constrain what is above the returned node (see the report: the code returns the copy of
+   the start node still attached to the copied ancestors).
+   BinaryNode: a node that is not kept leaves an empty slot in its kept parent, every other slot
+   stays where it was.
+   ============================================================================================= *)
+
+Definition rel_lbl (base : pos) (ps : pos * tree) : lbl :=
+  (S (length (fst ps)) - length base, tname (snd ps), tattrs (snd ps)).
+
+Definition addressed_at (bin : bool) (tsep : str) (t : tree) (st : pos) (s : str) : list pos :=
+  map fst
+    (filter (fun ps => prefixb st (fst ps) && (negb bin || negb (is_hole (snd ps)))
+                       && is_suffix_of (strip_trailing s tsep) (spec_path_name tsep t (fst ps)))
+            (pre_pos t)).
+
+(* the result: nodes below `base` whose position satisfies P (P must be closed under ancestors
+   within the subtree of base), labelled with depths relative to base *)
+Definition expected_gen (bin : bool) (t : tree) (base : pos) (P : pos -> bool) : list lbl :=
+  if bin
+  then flat_map (fun ps =>
+         let p := fst ps in
+         if prefixb base p && (pos_eqb p base || P (removelast p))
+         then [if is_hole (snd ps) || negb (P p)
+               then (S (length p) - length base, [], [])
+               else rel_lbl base ps]
+         else []) (pre_pos t)
+  else map (rel_lbl base) (filter (fun ps => prefixb base (fst ps) && P (fst ps)) (pre_pos t)).
+
+Definition prop_C14_at (bin : bool) (tsep : str) (t : tree) (st : pos) (c : hcall) (o : hobs) : bool :=
+  match c with
+  | CPrune pp exact sep d =>
+      let paths := norm_paths pp in
+      if is_nil paths && Nat.eqb d 0 then is_exn o ValueError else
+      let hits := map (fun s => addressed_at bin tsep t st (replace s sep tsep)) paths in
+      if existsb is_nil hits then is_err o
+      else if negb (singletons hits) then true
+      else let targets := concat hits in
+           if nested targets then true
+           else is_tree o (expected_gen bin t st
+                             (fun p => (is_nil paths || keep targets exact p)
+                                       && within_depth d (S (length p) - length st)))
+  | CSubtree s d =>
+      let sub q := is_tree o (expected_gen bin t q (fun p => within_depth d (S (length p) - length q))) in
+      if is_nil s then sub st else
+      match addressed_at bin tsep t st s with
+      | [] => is_err o
+      | [q] => sub q
+      | _ => true
+      end
+  end.
+
+(* get_subtree returns a new root *)
+Definition prop_C14_top (c : hcall) (o : hobs) (top : nat) : bool :=
+  match c, o with
+  | CSubtree _ _, OTree _ => Nat.eqb top 1
+  | _, _ => true
+  end.
+
+(* what print_tree(node, node_name_or_path, max_depth) shows = the real nodes of what get_subtree
+   returns, by depth and name *)
+Definition shown (l : list lbl) : list lbl :=
+  map (fun x => match x with (d, n, _) => (d, n, []) end)
+      (filter (fun x => match x with (_, n, _) => negb (is_nil n) end) l).
+
+Definition prop_C14_print (bin : bool) (tsep : str) (t : tree) (st : pos) (c : hcall) (pr : option hobs) : bool :=
+  match pr, c with
+  | Some o, CSubtree s d =>
+      let sub q := is_tree o (shown (expected_gen bin t q (fun p => within_depth d (S (length p) - length q)))) in
+      if is_nil s then sub st else
+      match addressed_at bin tsep t st s with
+      | [] => is_err o
+      | [q] => sub q
+      | _ => true
+      end
+  | _, _ => true
+  end.
